@@ -158,3 +158,38 @@ def run(ctx):
         else:
             ctx.ok("R-C12-4", key, "the %s comes from get_all_edges through %s only" % (what, sorted({nm.split("::")[-1] for (nm, tt) in calls})), loc_str(t.span))
     ctx.floor("R-C12-4", "edge_chains", len(chains), 2)
+
+    # ------------------------------------------------------------------ R-C12-5
+    ctx.rule("R-C12-5", "L_c is taken from the induced subgraph on every path: the variable that holds it has no constant definition")
+    n_lc = 0
+    for cpath in sorted(prog.reachable_bodies([mo.path])):
+        cb = prog.bodies[cpath]
+        if not (cpath == mo.path or cpath.startswith(mo.path)):
+            continue
+        cfl = flows.of(cb)
+        locals_ = {s.lhs.local for s in cb.stmts() if s.k == "assign" and not s.lhs.proj} | {t.dest.local for t in cb.calls() if not t.dest.proj}
+        for l in sorted(locals_):
+            if cb.local_ty(l) != "f64":
+                continue
+            defs = cb.assigns_to(l)
+            from_sub = []
+            consts = []
+            for (dbb, d) in defs:
+                rv = getattr(d, "rv", None)
+                if rv is not None and rv.k == "use" and rv.ops[0].is_const():
+                    consts.append(d)
+                    continue
+                reads = set()
+                if rv is not None:
+                    for o in rv.ops:
+                        reads |= cfl._op_reads(o)
+                else:
+                    reads = {("CALL", dbb)}
+                sl = cfl.slice_local(reads, data_only=True)
+                cs = {cb.blocks[n[1]].term.callee.short.split("::")[-1] for n in sl if n[0] == "CALL" and cb.blocks[n[1]].term.callee}
+                if cs & {"get_subgraph", "get_all_edges"}:
+                    from_sub.append(d)
+            if from_sub:
+                n_lc += 1
+                ctx.require(not consts, "R-C12-5", "lc|%s" % cb.short.split("::{closure")[0], "the value counted from the induced subgraph's edges in %s has no constant alternative" % cb.short.split("::")[-1], "in %s the number/weight of a community's internal edges is a constant on some path (%s) instead of being counted from the induced subgraph: a self-loop on a node that is alone in its community is not counted in L_c" % (cb.short, loc_str(consts[0].span) if consts else ""), loc_str(from_sub[0].span))
+    ctx.floor("R-C12-5", "lc_values", n_lc, 1)
